@@ -103,7 +103,7 @@ pub const FUZZABLE: [&str; 18] =
 pub fn decode(prop: &str, data: &[u8]) -> Case {
     let mut u = U::new(data);
     let mut c = cfg(&mut u);
-    let ai = [0usize, 0, 1, 1, 2, 3, 4, 5, 6, 7, 8][u.below(11)];
+    let ai = [0usize, 0, 1, 1, 2, 3, 4, 5, 6, 7, 8, 9, 10][u.below(13)];
     let alpha = gen::alphabet(ai);
     let max_pats = match prop {
         "C04" | "C16" => 24,
